@@ -2,6 +2,7 @@ package checks
 
 import (
 	"fmt"
+	"strings"
 	"testing"
 
 	"pgregory.net/rapid"
@@ -129,6 +130,9 @@ func (u *useGen) use(loopVar string) []*tw.Stmt {
 	ref := d.name
 	if d.name == "components/card.v2" && rapid.Bool().Draw(u.rt, "alias") {
 		ref = "~card.v2"
+	} else if rapid.IntRange(0, 3).Draw(u.rt, "refSpelling") == 0 {
+		// other spellings of the same relative path
+		ref = rapid.SampledFrom([]string{"/" + d.name, "./" + d.name, "x/../" + d.name, strings.Replace("sub/../"+d.name, "components/", "components//", 1)}).Draw(u.rt, "spelling")
 	}
 	u.uses[d.name]++
 	st := &tw.Stmt{Kind: tw.SComponent, Name: ref}
